@@ -74,7 +74,10 @@ class HashGlobalVarDesc:
         if instance.loaded:
             fd = instance.__dict__[self.name].fd
             # all values in the map are 8 bytes, whatever the format
-            return unpack_from(self.fmt, lookup_elem(fd, pack("B", self.count), 8))[0]
+            data = lookup_elem(fd, pack("B", self.count), 8)
+            if self.fmt == "x":
+                return unpack_from("q", data)[0] / Expression.FIXED_BASE
+            return unpack_from(self.fmt, data)[0]
         ret = instance.__dict__.get(self.name, None)
         if ret is None:
             ret = HashGlobalVar(instance, self.count, self.fmt)
@@ -87,6 +90,8 @@ class HashGlobalVarDesc:
     def __set__(self, ebpf, value):
         if ebpf.loaded:
             fd = ebpf.__dict__[self.name].fd
+            if self.fmt == "x":
+                value = int(value * Expression.FIXED_BASE)
             update_elem(fd, pack("B", self.count),
                         pack("q" if self.fmt.islower() else "Q", value))
             return
@@ -175,7 +180,10 @@ class TheDict(MutableMapping):
         raise TypeError
 
     def __iter__(self):
-        current = get_next_key(self.fd, self.key.stack)
+        try:
+            current = get_next_key(self.fd, self.key.stack)
+        except StopIteration:  # the map is empty
+            return
         while True:
             ret = type(self.key)()
             ret.data = current
